@@ -506,6 +506,28 @@ class ExprMixin:
                 else:
                     keys.append(("n",))
                     args.extend([kn, vn_])
+        return self._dict_of(keys, args, site)
+
+    def _dict_of(self, keys, args, site, _depth=0):
+        """Dict node from key descriptors and values; `**` of a branch-selected known dict gives one dict per branch"""
+        i = 0
+        for pos_, kd in enumerate(keys):
+            if kd == ("**",) and args[i].op == "Phi" and _depth < 6:
+                c, a, b = args[i].args
+
+                def known(x, d=0):
+                    return x.op == "Dict" or (x.op == "Phi" and d < 4 and known(x.args[1], d + 1) and known(x.args[2], d + 1))
+                if known(a) and known(b):
+                    alts = []
+                    for arm in (a, b):
+                        if arm.op == "Dict":
+                            ak, aa = list(arm.attr), list(arm.args)
+                        else:
+                            ak, aa = [("**",)], [arm]
+                        alts.append(self._dict_of(keys[:pos_] + ak + keys[pos_ + 1:], args[:i] + aa + args[i + 1:],
+                                                  site, _depth + 1))
+                    return self.phi(c, alts[0], alts[1], site)
+            i += 2 if kd[0] == "n" else 1
         return self.mk("Dict", args, tuple(keys), site)
 
     def _dict_key_slots(self, d: Node):
@@ -794,7 +816,7 @@ class ExprMixin:
         if base.op == "NdOperands" and idx.op == "Const" and isinstance(idx.attr, int):
             it = base.args[0]
             ops = it.extra["operands"]
-            if 0 <= idx.attr < len(ops):
+            if -len(ops) <= idx.attr < len(ops):
                 return ops[idx.attr]
         # string key on an external mapping-like object: stable identity per key
         if idx.op == "Const" and isinstance(idx.attr, str):
